@@ -38,7 +38,8 @@ AgainstRef(e, S, pts, Ref(_)) ==
       n   |-> Cardinality({j \in 1..Len(pts) : code[j] \in {"ok","bad","und","fl"}})]
 
 JudgeExpr(e, v, pts, o, model) ==
-  IF o.k # "expr" THEN [tags |-> <<(IF o.k = "DomainError" THEN "V:C05.raised" ELSE "V:C17.foreign_" \o o.t)>>,
+  IF o.k # "expr" THEN [tags |-> (IF o.k \in {"DomainError", "CoordinateMissing"} THEN <<"V:C05.raised">>
+                                  ELSE IF o.k = "PyError" THEN <<"V:C05.raised", "V:C17.foreign_" \o o.t>> ELSE <<>>),
                         bad |-> <<>>, und |-> <<>>, fl |-> <<>>, n |-> 0, idv |-> "na"]
   ELSE LET S == o.e
            a == AgainstRef(e, S, pts, LAMBDA p: DVal(e, v, p))
@@ -52,7 +53,8 @@ JudgeExpr(e, v, pts, o, model) ==
        IN [tags |-> t1 \o t2 \o t3 \o t4 \o t5 \o t6, bad |-> a.bad, und |-> a.und, fl |-> a.fl, n |-> a.n, idv |-> idv]
 
 JudgeSecond(e, v, w, pts, o) ==
-  IF o.k # "expr" THEN [tags |-> <<(IF o.k = "DomainError" THEN "V:C05.raised_second" ELSE "V:C17.foreign_" \o o.t)>>,
+  IF o.k # "expr" THEN [tags |-> (IF o.k \in {"DomainError", "CoordinateMissing"} THEN <<"V:C05.raised_second">>
+                                  ELSE IF o.k = "PyError" THEN <<"V:C05.raised_second", "V:C17.foreign_" \o o.t>> ELSE <<>>),
                         bad |-> <<>>, und |-> <<>>, fl |-> <<>>, n |-> 0]
   ELSE LET a == AgainstRef(e, o.e, pts, LAMBDA p: D2Val(e, v, w, p)) IN
        [tags |-> (IF Len(a.bad) > 0 THEN <<"V?:C05.second_order_value">> ELSE <<>>)
